@@ -123,7 +123,11 @@ def check(case, ctx):
                 return
             both = np.vstack([fa, fb])
             if both.shape == np.asarray(fm).shape:
-                ctx.close("row-independence:score_feature_matrix", np.nan_to_num(both), np.nan_to_num(np.asarray(fm)),
+                # a sample on the rim of the footprint is inside or outside the triangulation by rounding (scipy answers NaN
+                # outside, and its simplex search starts from the previous query): compared where both answers are numbers
+                fin = np.isfinite(both) & np.isfinite(np.asarray(fm))
+                ctx.count("rim_residuals_undefined", int((~fin).sum()))
+                ctx.close("row-independence:score_feature_matrix", np.where(fin, both, 0.0), np.where(fin, np.asarray(fm), 0.0),
                           1e-12 * max(1.0, np.abs(X).max()), "residuals of a batch vs two calls")
             else:
                 ctx.fail("row-independence:score_feature_matrix", "shape %s for %d rows and %d high-dimensional columns" % (np.asarray(fm).shape, n, hd))
